@@ -18,10 +18,11 @@ class Unsupported(Exception):
 
 
 class Raised(Exception):
-    def __init__(self, exc_type: str, msg: str = "", node=None):
+    def __init__(self, exc_type: str, msg: str = "", node=None, attrs=None):
         self.exc_type = exc_type
         self.msg = msg
         self.node = node
+        self.attrs = dict(attrs or {})      # what `except E as exc: exc.<name>` may read (returncode, errno ...)
         super().__init__(f"{exc_type}: {msg}")
 
 
@@ -182,6 +183,12 @@ class Closure:
     def __init__(self, fn, env):
         self.fn = fn
         self.env = env
+
+
+class BoundMethod:
+    """`obj.method` of a host object as a value (`getattr(self, name)(state)`, a method kept in a local)"""
+    def __init__(self, fn, obj, static=False):
+        self.fn, self.obj, self.static = fn, obj, static
 
 
 class Interp:
@@ -737,6 +744,12 @@ class Interp:
             base = self.expr(n.value, env)
             if isinstance(base, dict) and n.attr in base and base.get("__obj__"):
                 return base[n.attr]
+            if isinstance(base, Raised):
+                if n.attr in base.attrs:
+                    return base.attrs[n.attr]
+                if n.attr == "args":
+                    return (base.msg,)
+                raise Raised("AttributeError", n.attr, n)
             if isinstance(base, type) and n.attr == "__name__":
                 return base.__name__
             if isinstance(base, Synth):
@@ -750,6 +763,9 @@ class Interp:
                         return self._call(pf, [base], {})      # a property of a host object: its getter is the class's function
                 if hasattr(base, n.attr):
                     return getattr(base, n.attr)
+                if getattr(base, "__dl_class__", None) and f"{base.__dl_class__}.{n.attr}" in self.mod.funcs:
+                    fn_ = self.mod.funcs[f"{base.__dl_class__}.{n.attr}"]
+                    return BoundMethod(fn_, base, any(isinstance(d_, ast.Name) and d_.id == "staticmethod" for d_ in fn_.decorator_list))
                 raise Raised("AttributeError", n.attr, n)
             if isinstance(base, tuple) and hasattr(type(base), "_fields") and (n.attr in type(base)._fields or n.attr == "_fields"):
                 return getattr(base, n.attr)          # a NamedTuple record of the analysed code
@@ -966,6 +982,12 @@ class Interp:
                 if isinstance(args[0], Synth):
                     if hasattr(args[0], args[1]):
                         return getattr(args[0], args[1])
+                    cls_ = getattr(args[0], "__dl_class__", None)
+                    if cls_ and f"{cls_}.{args[1]}" in self.mod.funcs:
+                        fn_ = self.mod.funcs[f"{cls_}.{args[1]}"]
+                        if any(isinstance(d_, ast.Name) and d_.id in ("property", "cached_property") for d_ in fn_.decorator_list):
+                            return self._call(fn_, [args[0]], {})
+                        return BoundMethod(fn_, args[0], any(isinstance(d_, ast.Name) and d_.id == "staticmethod" for d_ in fn_.decorator_list))
                     if len(args) == 3:
                         return args[2]
                     raise Raised("AttributeError", args[1], n)
@@ -989,6 +1011,8 @@ class Interp:
                 target = self.mod.funcs[name]
             if isinstance(target, Closure):
                 return self._call(target.fn, args, kwargs, target.env)
+            if isinstance(target, BoundMethod):
+                return self.call_value(target, args, kwargs, n)
             if callable(target) and getattr(target, "_dl_lambda", False):
                 return target(*args)
             target = self._deref(target)
@@ -1101,6 +1125,8 @@ class Interp:
     def call_value(self, target, args, kwargs, n=None):
         """call a value the analysed code holds (a closure, a module function kept in a table, a pure library function, a type)"""
         target = self._deref(target)
+        if isinstance(target, BoundMethod):
+            return self._call(target.fn, ([] if target.static else [target.obj]) + list(args), dict(kwargs or {}))
         if isinstance(target, Closure):
             return self._call(target.fn, list(args), dict(kwargs or {}), target.env)
         if isinstance(target, (ast.FunctionDef,)):
